@@ -33,7 +33,9 @@ macro_rules! for_each_slot {
 
 #[derive(Clone, Debug)]
 pub struct HashMap<K, V> {
-    slots: [Option<(K, V)>; CAP],
+    // never dropped: the drop glue of the slot array (a loop over CAP entries at every early
+    // return of every function that owns a table) is not the subject of any check
+    slots: std::mem::ManuallyDrop<[Option<(K, V)>; CAP]>,
     len: usize,
 }
 
@@ -46,7 +48,7 @@ impl<K, V> Default for HashMap<K, V> {
 impl<K, V> HashMap<K, V> {
     pub fn new() -> Self {
         HashMap {
-            slots: [const { None }; CAP],
+            slots: std::mem::ManuallyDrop::new([const { None }; CAP]),
             len: 0,
         }
     }
@@ -54,7 +56,10 @@ impl<K, V> HashMap<K, V> {
     /// builds a table directly from its slots (verification harnesses construct arbitrary
     /// pre-states this way). `slots[..len]` must be occupied, the rest empty, keys distinct.
     pub fn from_slots(slots: [Option<(K, V)>; CAP], len: usize) -> Self {
-        HashMap { slots, len }
+        HashMap {
+            slots: std::mem::ManuallyDrop::new(slots),
+            len,
+        }
     }
 
     pub fn len(&self) -> usize {
@@ -159,7 +164,9 @@ impl<K, V> IntoIterator for HashMap<K, V> {
     type Item = (K, V);
     type IntoIter = std::iter::Flatten<std::array::IntoIter<Option<(K, V)>, CAP>>;
     fn into_iter(self) -> Self::IntoIter {
-        self.slots.into_iter().flatten()
+        std::mem::ManuallyDrop::into_inner(self.slots)
+            .into_iter()
+            .flatten()
     }
 }
 
@@ -300,5 +307,117 @@ impl<'de, T: Deserialize<'de> + PartialEq> Deserialize<'de> for HashSet<T> {
     fn deserialize<D: Deserializer<'de>>(deserializer: D) -> Result<Self, D::Error> {
         let items = Vec::<T>::deserialize(deserializer)?;
         Ok(items.into_iter().collect())
+    }
+}
+
+/// verification-only model of `priority_queue::PriorityQueue` as used through
+/// `util::priority_queue::InternalPriorityQueue`: a finite partial function item -> priority over
+/// a fixed array. `pop` removes AN item of maximal priority; which one among equals is chosen
+/// nondeterministically, as the contract of a priority queue leaves ties open.
+#[derive(Clone, Debug)]
+pub struct PriorityQueue<I, P> {
+    slots: [Option<(I, P)>; CAP],
+    len: usize,
+}
+
+impl<I, P> Default for PriorityQueue<I, P> {
+    fn default() -> Self {
+        Self::new()
+    }
+}
+
+impl<I, P> PriorityQueue<I, P> {
+    pub fn new() -> Self {
+        PriorityQueue {
+            slots: [const { None }; CAP],
+            len: 0,
+        }
+    }
+
+    /// builds a queue directly from its slots (verification harnesses construct pre-states this
+    /// way). `len` must be the number of occupied slots and items must be distinct.
+    pub fn from_slots(slots: [Option<(I, P)>; CAP], len: usize) -> Self {
+        PriorityQueue { slots, len }
+    }
+
+    pub fn slots(&self) -> &[Option<(I, P)>; CAP] {
+        &self.slots
+    }
+
+    pub fn len(&self) -> usize {
+        self.len
+    }
+
+    pub fn is_empty(&self) -> bool {
+        self.len == 0
+    }
+}
+
+impl<I: PartialEq, P: Ord> PriorityQueue<I, P> {
+    pub fn get_priority(&self, item: &I) -> Option<&P> {
+        for_each_slot!(i, {
+            if let Some((si, sp)) = &self.slots[i] {
+                if si == item {
+                    return Some(sp);
+                }
+            }
+        });
+        None
+    }
+
+    pub fn push(&mut self, item: I, priority: P) -> Option<P> {
+        let mut at: Option<usize> = None;
+        let mut free: Option<usize> = None;
+        for_each_slot!(i, {
+            match &self.slots[i] {
+                Some((si, _)) => {
+                    if at.is_none() && *si == item {
+                        at = Some(i);
+                    }
+                }
+                None => {
+                    if free.is_none() {
+                        free = Some(i);
+                    }
+                }
+            }
+        });
+        if let Some(i) = at {
+            if let Some((_, sp)) = &mut self.slots[i] {
+                return Some(std::mem::replace(sp, priority));
+            }
+        }
+        match free {
+            Some(i) => {
+                self.slots[i] = Some((item, priority));
+                self.len += 1;
+                None
+            }
+            None => panic!("verification table model capacity exceeded"),
+        }
+    }
+
+    pub fn push_increase(&mut self, item: I, priority: P) -> Option<P> {
+        if self.get_priority(&item).map_or(true, |p| priority > *p) {
+            self.push(item, priority)
+        } else {
+            Some(priority)
+        }
+    }
+
+    pub fn pop(&mut self) -> Option<(I, P)> {
+        if self.len == 0 {
+            return None;
+        }
+        let pick: usize = kani::any();
+        kani::assume(pick < CAP);
+        kani::assume(self.slots[pick].is_some());
+        for_each_slot!(i, {
+            if let (Some((_, sp)), Some((_, pp))) = (&self.slots[i], &self.slots[pick]) {
+                kani::assume(sp <= pp);
+            }
+        });
+        self.len -= 1;
+        self.slots[pick].take()
     }
 }
